@@ -253,7 +253,7 @@ def prePath (e : Env) (p : List Char) : PRes :=
       | none => .ok p3
       | some h => .ok (joinPath h rest)
     | none =>
-      if startsWith "./".toList p3 then
+      if startsWith ['.', '/'] p3 then
         match sliceFrom 2 p3 with
         | none => .panic
         | some rest => .ok (joinPath e.workspace rest)
